@@ -197,6 +197,13 @@ Definition is_fetch_authorized_from_cache (has_authorization : bool) (optype : N
          end
        end.
 
+(* isFetchAuthorized, pre-fetch branch: the gate rule is chosen by the operation type recorded on the
+   FETCH (FetchInfo.OperationType: the type its root fields live on -- a nested _entities fetch below
+   a mutation is a query fetch); the operation type of the whole request ([loader_op], l.info) is
+   only the fallback for a fetch without one *)
+Definition is_fetch_authorized (has_authorization : bool) (loader_op : N) (ft : fetchinfo) (k : cache) : bool :=
+  is_fetch_authorized_from_cache has_authorization (fetch_optype (ft_op ft) loader_op) (ft_ds ft) (ft_roots ft) k.
+
 (* ---- embedding of the C02 plan tree ---- *)
 Definition finfo_of (srcs : authinfo -> list bytes) (a : authinfo) : finfo :=
   {| fi_parent := au_parent_type a; fi_name := au_field a; fi_rule := true; fi_sources := srcs a |}.
